@@ -288,16 +288,20 @@ def _explore(out, tier, seed, facts, replay):
         for c in CLASSES:
             m = metrics[c]
             use = a if m.supports_aggregator else "mean"
-            m.aggregator = aggs[use]
+            m.aggregator = aggs[a]           # the driver assigns -agg to every metric (with a warning); one that does not support it must ignore it
             want = oracle(c, o, f, use)
             if want == "skip":
                 continue
             nf += 1
+            ao_, af_ = np.array(o), np.array(f)
             try:
-                got1 = float(m.compute_from_obs_fcst(np.array(o), np.array(f)))
+                got1 = float(m.compute_from_obs_fcst(ao_, af_))
             except Exception as e:
-                out.violation("exception:%s" % c, "%s raised %r" % (c, e), {"metric": c, "obs": o, "fcst": f, "agg": use})
+                out.violation("exception:%s" % c, "%s raised %r" % (c, e), {"metric": c, "obs": o, "fcst": f, "agg": a})
                 continue
+            if not (np.array_equal(ao_, np.array(o)) and np.array_equal(af_, np.array(f))):
+                out.violation("arguments-modified:%s" % c, "%s with -agg %s reordered or changed the arrays it was given (obs %r -> %r, fcst %r -> %r): the dataset hands its cached arrays to the metrics"
+                              % (c, a, o, ao_.tolist(), f, af_.tolist()), {"metric": c, "obs": o, "fcst": f, "agg": a})
             if want is None:
                 if not (math.isnan(got1) or math.isinf(got1)):
                     # undefined by the textbook but numerically defined up to rounding is not a finding
@@ -360,6 +364,7 @@ def _explore(out, tier, seed, facts, replay):
     import datagen
     import verif.axis
     import verif.interval
+    import verif.field
     import verif.util
     datagen.patch_error()
     for _ in range(12 if tier == "quick" else 150):
@@ -396,6 +401,35 @@ def _explore(out, tier, seed, facts, replay):
                     if not close(got1, want, 1e-9):
                         out.violation("conditional-axis:%s-x-%s" % (mname, axname), "-m %s -x %s -agg %s bin %s gives %r, expected %r (aggregate of the values in the bin)"
                                       % (mname, axname, a, iv, got1, want), {"dataset": ds, "metric": mname, "axis": axname, "agg": a, "interval": str(iv)})
+    # an obs / fcst statistic (FromField) is handed the very arrays the dataset caches: whatever the aggregator, the pairs the
+    # dataset hands out afterwards are the pairs it handed out before (same order, same values)
+    for _ in range(6 if tier == "quick" else 60):
+        ds = datagen.gen_dataset(rng, options=False)
+        ds["cfg"].pop("clim", None)
+        d = datagen.impl_data(ds)
+        if isinstance(d, tuple):
+            continue
+        for ax_ in (verif.axis.No(), verif.axis.Leadtime(), verif.axis.Location()):
+            try:
+                before = [np.array(x_, float).copy() for x_ in d.get_scores([verif.field.Obs(), verif.field.Fcst()], 0, ax_, 0)]
+            except Exception:
+                continue
+            for a in AGGS:
+                for cls_ in (verif.metric.Obs, verif.metric.Fcst):
+                    m = cls_()
+                    m.aggregator = aggs[a]
+                    nf += 1
+                    try:
+                        m.compute(d, 0, ax_, None)
+                    except Exception:
+                        continue
+                    after = [np.array(x_, float) for x_ in d.get_scores([verif.field.Obs(), verif.field.Fcst()], 0, ax_, 0)]
+                    same_ = all(x_.shape == y_.shape and np.array_equal(x_, y_, equal_nan=True) for x_, y_ in zip(before, after))
+                    if not same_:
+                        out.violation("statistic-alters-dataset:%s" % a, "after -m %s -agg %s along %s the dataset pairs observations %r with forecasts %r; before it paired %r with %r"
+                                      % (cls_.__name__.lower(), a, ax_.name(), after[0].tolist()[:8], after[1].tolist()[:8], before[0].tolist()[:8], before[1].tolist()[:8]),
+                                      {"dataset": ds, "aggregator": a, "metric": cls_.__name__.lower(), "axis": ax_.name()})
+                        before = [x_.copy() for x_ in after]
     return {
         "evaluations": len(exprs) * len(CLASSES) + nf,
         "distinct_nontrivial": len(distinct),
